@@ -98,10 +98,30 @@ def run(eng, rep, tier):
 
     # atomic case: every success path links the two nodes (forwarding pointer), so that a later binding of one is seen
     # by the other
+    # the atomic case = the branch taken when BOTH structures have no content: an `if` whose test (conjuncts, flags kept
+    # in locals inlined) contains an emptiness test - in any spelling - of two different `.content` collections
+    from .flow import facts_imply_empty, inline_locals
+
+    def _conjuncts(e, depth=0):
+        if isinstance(e, ast.BoolOp) and isinstance(e.op, ast.And):
+            return [c for v in e.values for c in _conjuncts(v, depth)]
+        if isinstance(e, ast.Name) and depth < 2:
+            defs = inline_locals(fu.node, e, depth=1)[1:]
+            if len(defs) == 1:
+                return _conjuncts(defs[0], depth + 1)
+        return [e]
     atomic = None
     for sub in ast.walk(fu.node):
-        if isinstance(sub, ast.If) and ast.unparse(sub.test).count("content") == 2 and "== 0" in ast.unparse(sub.test):
-            atomic = sub
+        if isinstance(sub, ast.If):
+            empties = set()
+            for cj in _conjuncts(sub.test):
+                for x in ast.walk(cj):
+                    if isinstance(x, ast.Attribute) and x.attr in ("content", "_content"):
+                        txt = ast.unparse(x)
+                        if facts_imply_empty({(ast.unparse(cj), True, frozenset())}, txt):
+                            empties.add(txt)
+            if len(empties) >= 2:
+                atomic = sub
     if atomic is None:
         rep.error("R1", "C18.3", fu.qname, "atomic-case-links-nodes", "the atomic case of unify was not found")
     else:
